@@ -298,6 +298,8 @@ class Calls:
         ghosts = [v for v in extra.values() if z3.is_expr(v) and z3.is_const(v) and str(v).startswith('ghost.')]
         if c.trusted:
             ex.assumed.add('trusted contract: ' + c.key)
+        if c.fn_params:
+            self.check_fn_params(ex, c, bound, extra, n)
         # ghost hooks of the *calling* function on this call's arguments (values at call time)
         try:
             argvals = [ex.read(path) for _, path, _ in bound]
@@ -372,7 +374,94 @@ class Calls:
             ex.assume(fe)
         if result is not None and not isinstance(result, RefVal):
             ex.ghost_trigger('ret:' + re.sub(r'<.*>', '', c.name).split('::')[-1], None, [result])
+        if is_ctor and this_path is not None:
+            self.propagate_constants(ex, this_path)
         return result
+
+    def propagate_constants(self, ex, path):
+        """integer members of a freshly constructed object whose value the contract fixes to a literal (a unit stride, a
+        zero offset) are replaced by that literal: later formulas then contain k*1 instead of k*m with m == 1 as a side
+        fact (keeps the quantified clauses of the slice contracts linear)"""
+        try:
+            v = ex.read(path)
+        except Unsupported:
+            return
+        if not isinstance(v, SVal):
+            return
+        cands = [(k, x) for k, x in v.f.items() if z3.is_expr(x) and z3.is_int(x) and z3.is_const(x)
+                 and x.decl().kind() == z3.Z3_OP_UNINTERPRETED]
+        if not cands:
+            return
+        from .core import _has_quant
+        s = ex.mk_solver(120000, seed=0, rlimit=200000)
+        for h in ex.hyps:
+            if not _has_quant(h):
+                s.add(h)
+        if s.check() != z3.sat:
+            return
+        m = s.model()
+        nf = dict(v.f)
+        changed = False
+        for k, x in cands:
+            val = m.eval(x, model_completion=False)
+            if not z3.is_int_value(val) or abs(val.as_long()) > 4:
+                continue
+            s.push()
+            s.add(x != val)
+            r = s.check()
+            s.pop()
+            if r == z3.unsat:
+                nf[k] = val
+                changed = True
+        if changed:
+            ex.write(path, SVal(v.cls, nf))
+
+    def check_fn_params(self, ex, c, bound, extra, n):
+        """function-valued parameters of the callee: the caller's contract names the callee's ghost functions
+        (ghost_fn_args); the actual argument is run on arbitrary arguments satisfying the parameter's precondition and must
+        establish the parameter's postconditions; the ghost functions are then available to the callee's ensures"""
+        from .values import LambdaVal, FuncRef
+        short = re.sub(r'<.*>', '', c.name).split('::')[-1]
+        given = (ex.cur_contract.ghost_fn_args.get(short) if ex.cur_contract else None) or {}
+        env0 = S.Env(ex, ex.store, dict(ex.names), ex.this_path, {})
+        for g, sorts in c.ghost_fns.items():
+            if g not in given:
+                raise S.SpecError('call of %s: ghost function %s is not named by the calling contract' % (short, g))
+            extra[g] = S.spec_eval_term(given[g], env0, dict(ex.spec_lets, **(ex.cur_contract.extra_env if ex.cur_contract else {})))
+        for pname, spec in c.fn_params.items():
+            path = [pp for nm, pp, _ in bound if nm == pname]
+            if not path:
+                raise S.SpecError('no parameter %s' % pname)
+            fv = ex.read(path[0])
+            # arbitrary arguments
+            avals = [z3.Int(ex.fresh_name('fa_' + a)) for a in spec['args']]
+            for a_ in avals:
+                ex.assume(z3.And(a_ >= S.INT_MIN, a_ <= S.INT_MAX))
+            ex2 = dict(extra)
+            ex2.update(dict(zip(spec['args'], avals)))
+            envp = S.Env(ex, ex.store, {}, None, ex2)
+            saved_hyps = len(ex.hyps)
+            ex.assume(S.spec_eval(spec.get('requires', 'True'), envp, ex2))
+            if isinstance(fv, FuncRef):
+                decl = ex.tu.decls.get(fv.decl.get('id'))
+                cf = S.lookup(decl['_qual'], decl['type']['qualType'], decl.get('_targs')) if decl is not None else None
+                if cf is None:
+                    raise Unsupported('function argument %s has no contract' % fv.decl.get('name'))
+                ps = params_of(decl)
+                b2 = []
+                for p_, a_ in zip(ps, avals):
+                    b2.append((p_.get('name'), ex.new_root('farg_' + p_.get('name', 'p'), a_), p_))
+                res = self.apply_contract(ex, cf, decl, None, b2, n)
+            elif isinstance(fv, LambdaVal):
+                res = ex.call_lambda(fv, avals)
+            else:
+                raise Unsupported('function-valued argument %r' % (fv,))
+            if isinstance(res, RefVal):
+                res = ex.read(res.path)
+            ex2['result'] = envp.wrap(res)
+            for lab, e in spec['ensures']:
+                ex.oblige('pre', '%s.%s.%s' % (short, pname, lab), S.spec_eval(e, envp, ex2), n)
+            # the facts about the arbitrary arguments stay (they are fresh symbols); nothing to undo
 
     def bind_target(self, ex, tgt, names, this_path):
         parts = tgt.split('.')
